@@ -122,6 +122,25 @@ def supervisor(chk):
             chk.bad(rule, name, "close-all does not await aclose() of every runner (%d runners, %d awaited aclose)" % (len(iters), len([e for e in acl if e[3]])), node=close.node, stmt="aclose-each")
             ok = False
             break
+        # the wait for a runner's aclose() is unbounded: AsyncioRunner.aclose IS the "cancel until none is left" loop, so
+        # a deadline on it (wait_for(..., timeout) / async with asyncio.timeout(...)) abandons payloads that are still
+        # unwinding and lets run() raise before they have finished
+        bounded = None
+        for e2 in evs:
+            if e2[0] == "call" and e2[1][1] == ("glob", "ext:asyncio.wait_for") and any(a in e2[1][2] for a in [x[1] for x in acl]):
+                tmo = dict(e2[1][3]).get("timeout", e2[1][2][1] if len(e2[1][2]) > 1 else None)
+                if tmo is not None and tmo != ("const", None):
+                    bounded = "asyncio.wait_for(..., timeout=%s)" % show(tmo)
+        for w in ast.walk(close.node):
+            if isinstance(w, ast.AsyncWith) and any(isinstance(n, ast.Attribute) and n.attr == "aclose" for b in w.body for n in ast.walk(b)):
+                for item in w.items:
+                    c = item.context_expr
+                    if isinstance(c, ast.Call) and (prog.resolve(close.module, c.func) or "") in ("ext:asyncio.timeout", "ext:asyncio.timeout_at") and not (c.args and isinstance(c.args[0], ast.Constant) and c.args[0].value is None):
+                        bounded = "async with %s" % util.unparse(c)
+        if bounded:
+            chk.bad(rule, name, "close-all bounds the wait for a runner's aclose() by %s: when the deadline passes, the cancel-until-none-is-left loop of the asyncio runner is abandoned and run() raises while payloads are still unwinding" % bounded, node=close.node, stmt="aclose-bounded")
+            ok = False
+            break
         for e in acl:
             src = e[1][1][1]
             if not (src[0] == "item" and strip_sites(src[1]) == ("call", ("attr", RUNNERS, "values"), (), ())):
@@ -227,10 +246,24 @@ def asyncio_runner(chk):
     # (b) aclose: every normal exit only when the registry is empty; cancel every task that is not done
     ac = prog.lookup_method(cls, "aclose")
     name = ac.qual
-    outs = Interp(prog, ac, unroll=1).run()
+    # own coroutines that only aclose (or another such helper) awaits are part of aclose: `await self._cancel_tasks()`
+    close_fns = [ac]
+    grew = True
+    while grew:
+        grew = False
+        for fis in cls.methods.values():
+            for g in fis:
+                if g in close_fns or not g.is_async:
+                    continue
+                users = [h for hs in cls.methods.values() for h in hs for n in ast.walk(h.node) if isinstance(n, ast.Attribute) and n.attr == g.name and util.dotted(n) == "self." + g.name]
+                if users and all(h in close_fns for h in users):
+                    close_fns.append(g)
+                    grew = True
+    outs = Interp(prog, ac, unroll=1, inline=lambda f, ct: f in close_fns and f is not ac).run()
     chk.count(len(outs))
     ok = True
     n_exits = 0
+    loop_fn = ([g for g in close_fns if any(isinstance(n, ast.While) for n in ast.walk(g.node))] or [ac])[0]
     for o in outs:
         if o.kind not in ("normal", "return"):
             continue
@@ -251,9 +284,9 @@ def asyncio_runner(chk):
                 stmt="exit-with-tasks",
             )
             ok = False
-    loops = [n for n in ast.walk(ac.node) if isinstance(n, ast.While)]
+    loops = [n for n in ast.walk(loop_fn.node) if isinstance(n, ast.While)]
     if not loops:
-        if any(isinstance(n, ast.If) for n in ast.walk(ac.node)) and any(isinstance(n, ast.Attribute) and n.attr == "cancel" for n in ast.walk(ac.node)):
+        if any(isinstance(n, ast.If) for n in ast.walk(loop_fn.node)) and any(isinstance(n, ast.Attribute) and n.attr == "cancel" for n in ast.walk(loop_fn.node)):
             chk.bad(rule, name, "tasks are cancelled once instead of until none is left (no loop)", node=ac.node, stmt="cancel-once")
         else:
             chk.undecided(rule, name, "close loop idiom not recognised", node=ac.node)
@@ -271,12 +304,12 @@ def asyncio_runner(chk):
                 # a local holding a snapshot of the registry (e.g. bound by `while pending := self._tasks.copy()`)
                 snap = any(
                     isinstance(a, (ast.NamedExpr, ast.Assign)) and "self." + reg in util.unparse(a.value) and src in [util.unparse(t) for t in ([a.target] if isinstance(a, ast.NamedExpr) else a.targets)]
-                    for a in ast.walk(ac.node)
+                    for a in ast.walk(loop_fn.node)
                 )
                 if not snap:
                     chk.bad(rule, name, "the close loop ranges over %s instead of the task registry" % src, node=f, stmt="close-domain")
                     ok = False
-            it = Interp(prog, ac, unroll=1)
+            it = Interp(prog, loop_fn, unroll=1)
             p = Path()
             outs2 = it.exec_block([f], p)
             seen = set()
@@ -319,7 +352,7 @@ def asyncio_runner(chk):
             for n in ast.walk(fi.node):
                 if isinstance(n, ast.Call) and isinstance(n.func, ast.Attribute) and n.func.attr in ("discard", "remove", "clear", "pop") and util.dotted(n.func.value) == "self." + reg:
                     chk.count()
-                    if fi is ac:
+                    if fi in close_fns:
                         continue
                     arg = util.unparse(n.args[0]) if n.args else ""
                     if "current_task" in arg and fi.name in facts["monitors"]:
@@ -378,10 +411,38 @@ def trio_runner(chk):
         cl = closers[0]
         src = ast.unparse(ac.node)
         routed = False
+        # locals that are plain aliases of attributes (`closer, token = self._aclose_trio, self._trio_token`) and local
+        # functions / lambdas (`def close_from_thread(): return trio.from_thread.run(closer, trio_token=token)`)
+        alias = {}
+        for t_, v_ in util.simple_assignments(ac.node):
+            if isinstance(t_, ast.Name):
+                alias.setdefault(t_.id, []).append(v_)
+        local_fns = {d.name: d for d in ast.walk(ac.node) if isinstance(d, (ast.FunctionDef, ast.Lambda)) and d is not ac.node and hasattr(d, "name")}
+
+        def deref(x):
+            while isinstance(x, ast.Name) and len(alias.get(x.id, [])) == 1:
+                x = alias[x.id][0]
+            return x
+
+        def through_thread(x):
+            """does evaluating / calling x run  trio.from_thread.run(self.<closer>, trio_token=self.<token>)"""
+            x = deref(x)
+            if isinstance(x, ast.Name) and x.id in local_fns:
+                x = local_fns[x.id]
+            for c in ast.walk(x):
+                if not isinstance(c, ast.Call):
+                    continue
+                fn, args = c.func, list(c.args)
+                if prog.resolve(ac.module, fn) == "ext:functools.partial" and args:
+                    fn, args = args[0], args[1:]
+                if prog.resolve(ac.module, fn) == "ext:trio.from_thread.run" and args and util.dotted(deref(args[0])) == "self.%s" % cl.name:
+                    if any(k.arg == "trio_token" and util.dotted(deref(k.value)) == "self.%s" % slots.trio_token(prog, cls) for k in c.keywords):
+                        return True
+            return False
+
         for n in ast.walk(ac.node):
             if isinstance(n, ast.Call) and isinstance(n.func, ast.Attribute) and n.func.attr == "run_in_executor":
-                txt = ast.unparse(n)
-                if "from_thread.run" in txt and "self.%s" % cl.name in txt and ("trio_token=self.%s" % slots.trio_token(prog, cls)) in txt:
+                if any(through_thread(a) for a in n.args[1:2]) or (len(n.args) > 2 and prog.resolve(ac.module, n.args[1]) == "ext:trio.from_thread.run" and through_thread(ast.Call(func=n.args[1], args=n.args[2:], keywords=[]))):
                     routed = True
                     if not (n.args and isinstance(n.args[0], ast.Constant) and n.args[0].value is None):
                         chk.bad(rule, ac.qual, "the channel is closed through a private executor", node=n, stmt="aclose-executor", aux=True)
@@ -418,6 +479,8 @@ def trio_runner(chk):
             )
             ok = False
         want_target = [("attr", SELF, blocking.name)] if form == "call" else [("glob", "ext:trio.run"), ("attr", SELF, entry.name)]
+        if ts["entry_handed"]:
+            want_target.append(("attr", SELF, entry.name))
         if list(a[1 : 1 + len(want_target)]) != want_target:
             chk.bad(rule, mp.qual, "the executor does not run %s" % (blocking.name if form == "call" else "trio.run(self.%s)" % entry.name), node=mp.node, stmt="executor-target")
             ok = False
